@@ -22,7 +22,7 @@ META = dict(
           '(logic, argument) whose proof instantiated >= 1 witness.'),
     assumptions=['freshness is recomputed by walking node mappings (sentence constants via REF-SYN, world/world1/world2 keys)'],
     min_events={'quick': {'K3-append': 50000, 'K3-copy': 3000, 'witness_steps_checked': 2000, 'histories': 20000},
-                'thorough': {'K3-append': 1000000, 'K3-copy': 50000, 'witness_steps_checked': 40000, 'histories': 400000}},
+                'thorough': {'K3-append': 500000, 'K3-copy': 50000, 'witness_steps_checked': 25000, 'histories': 300000}},
     budget=dict(quick=1500, thorough=7200),
     unit_timeout=dict(quick=900, thorough=3000),
 )
